@@ -11,7 +11,7 @@ from harness.terms import jkey
 CLAUSES = {
     "C01": {"roundtrip", "build"},
     "C02": {"wire", "encode-raises", "json-dumps", "not-basic", "build"},
-    "C03": {"decode", "decode-accepts", "decode-rejects", "ill-typed", "build"},
+    "C03": {"decode", "decode-accepts", "decode-rejects", "ill-typed", "build", "decode-format"},
 }
 MODEL_INVARIANTS = {"C01": "RoundTrip", "C02": "BasicForm", "C03": "WellTyped"}
 
